@@ -7,7 +7,7 @@
    or the configured one.  Not proved here: termination / linear step count of the scanner on arbitrary bytes (C03 / C18 prove
    it for well-framed and truncated inputs), memory safety of the unsafe blocks, thread behaviour (C17). *)
 From Coq Require Import List NArith Bool.
-From FP Require Import Model.Base Model.Rdh Model.Alpide Model.CdpRunning Model.Scanner Model.Link Model.Collector Proofs.C04_proofs Proofs.C04_stave.
+From FP Require Import Model.Base Model.Rdh Model.Alpide Model.CdpRunning Model.Scanner Model.Link Model.Collector Model.System Proofs.C04_proofs Proofs.C04_stave Proofs.C04_system.
 From FP Require Gen.Facts.
 Import ListNotations.
 Open Scope N_scope.
@@ -44,6 +44,19 @@ Theorem C04_no_panic_with_valid_layers : forall c ps,
   (forall p, In p ps -> layer_from_feeid (r_fee_id (c_rdh p)) <= 6) -> exists m, run_validator c ps = Ok m.
 Proof. exact (c04_no_panic_valid_layers (conj eq_refl (conj eq_refl eq_refl))). Qed.
 
+(* the whole `check` run (scanner, dispatcher, every validator, collector), every input and configuration: a validator crash is
+   possible only at the invalid-layer site and only when a scanned packet names layer 7 (F6); otherwise the run is refused
+   (too short / unrecognised first RDH0) or ends with exit status 0, 1 or the configured one *)
+Theorem C04_whole_run_panics_only_for_layer_7 : forall ff c input p, run_check ff c input = R_panic p ->
+  p = SITE_stave_from_feeid /\
+  exists q, In q (concat (so_batches (scan_impl (rc_scan c) input))) /\ 6 < layer_from_feeid (r_fee_id (c_rdh q)).
+Proof. exact (c04_run_check_panic (conj eq_refl (conj eq_refl eq_refl))). Qed.
+Theorem C04_whole_run_outcomes : forall ff c input,
+  (forall q, In q (concat (so_batches (scan_impl (rc_scan c) input))) -> layer_from_feeid (r_fee_id (c_rdh q)) <= 6) ->
+  run_check ff c input = R_too_short \/ run_check ff c input = R_unrecognised \/
+  exists s shown e, run_check ff c input = R_done s shown e /\ (e = 0 \/ e = 1 \/ rc_exit c = Some e).
+Proof. exact (c04_run_check_total (conj eq_refl (conj eq_refl eq_refl))). Qed.
+
 Theorem C04_exit_range : forall aee r flag,
   exit_code aee r flag = 0 \/ exit_code aee r flag = 1 \/ exists n, aee = Some n /\ exit_code aee r flag = n.
 Proof. exact c04_exit_range. Qed.
@@ -58,4 +71,6 @@ Print Assumptions C04_fatal_lane_beyond_barrel_no_panic.
 Print Assumptions C04_refuted_fatal_lane_beyond_barrel.
 Print Assumptions C04_only_invalid_layer_site_reachable.
 Print Assumptions C04_no_panic_with_valid_layers.
+Print Assumptions C04_whole_run_panics_only_for_layer_7.
+Print Assumptions C04_whole_run_outcomes.
 Print Assumptions C04_exit_range.
